@@ -205,7 +205,13 @@ func Register() {
 			{Name: "merges", Fn: c24merge, Race: true, TimeoutQuick: 40 * time.Minute, TimeoutThorough: 8 * time.Hour},
 		}})
 	rig.Register(&rig.Spec{Prop: "C28", Level: "exploration", RaceFuncs: c28RaceFuncs,
-		Stages: []rig.Stage{{Name: "ledger", Fn: c28, Race: true, TimeoutQuick: 40 * time.Minute, TimeoutThorough: 8 * time.Hour}}})
+		Stages: []rig.Stage{
+			{Name: "ledger", Fn: c28, Race: true, TimeoutQuick: 40 * time.Minute, TimeoutThorough: 8 * time.Hour},
+			// direct stress of the tracker API (unexported constructor fields: in-package twin); not a -race stage: raw speed
+			// maximises lock hand-offs, and the oracle is a counter array, not the race detector
+			{Name: "tracker", Twin: &rig.Twin{Pkg: "libraries/doltcore/sqle/dsess", Files: []string{"c28_tracker_test.go"}, Run: "^TestVerifC28Tracker$"},
+				TimeoutQuick: 30 * time.Minute, TimeoutThorough: 2 * time.Hour},
+		}})
 }
 
 // report forwards a violation to the rig, at most three witnesses per key and worker process, so that one recurring class
